@@ -59,7 +59,10 @@ class ConstantFoldInterpPattern(RewritePattern):
                 for operand in op.operands
             )
             results = self.interpreter.run_op(op, args)
-        except InterpretationError:
+        except (InterpretationError, AssertionError, ArithmeticError, MemoryError):
+            # The interpreter cannot evaluate the operation on these constants, e.g. a
+            # division by zero or a shift by an amount that Python refuses to compute
+            # (the result is undefined in both cases): leave it in place.
             return
 
         new_ops: list[Operation] = []
